@@ -35,6 +35,10 @@ struct SoPlexVerifAccess
    {
       return sp._isRealLPLoaded;
    }
+   template <class R> static bool isRealLPScaled(const soplex::SoPlexBase<R>& sp)
+   {
+      return sp._isRealLPScaled;
+   }
    template <class R> static bool hasRationalLP(const soplex::SoPlexBase<R>& sp)
    {
       return sp._rationalLP != nullptr;
